@@ -1,10 +1,13 @@
 package p_xbinary
 
 import (
+	"bufio"
 	"bytes"
 	"fmt"
 	"io"
 	"runtime"
+	"strconv"
+	"strings"
 	"sync"
 
 	"github.com/acquirecloud/golibs/xbinary"
@@ -17,7 +20,21 @@ const (
 	DPlain = "plain" // io.Writer only
 	DFrame = "frame" // a framing writer: its Write sends p as one length-prefixed frame through ANOTHER ObjectsWriter
 	DYield = "yield" // io.Writer only, yields the processor inside Write before it looks at p
+	// DBufio is the prefix of "bufio:<size>:<fill>": ObjectsWriter.Writer is a *bufio.Writer of <size> bytes over an
+	// io.Writer-only sink; the harness itself has written <fill> (<= size) bytes into it before the history starts, so
+	// the first item finds size-fill bytes of free space (0 included) and the following ones whatever the history left.
+	DBufio = "bufio"
 )
+
+// BufioDst names a bufio destination.
+func BufioDst(size, fill int) string { return fmt.Sprintf("%s:%d:%d", DBufio, size, fill) }
+
+func dstKind(d string) string {
+	if strings.HasPrefix(d, DBufio+":") {
+		return DBufio
+	}
+	return d
+}
 
 // WStep writes one item to the destination Dst (modulo the number of destinations).
 type WStep struct {
@@ -45,11 +62,13 @@ type Info15W struct {
 	kinds          map[string]bool
 	P1             bool
 	StringsOrBytes int
+	LowSpace       int // items written when the bufio destination had fewer than 10 free bytes
+	NoSpace        int // ... had no free byte at all
 }
 
 // NonTrivial: the history differs from "one fresh ObjectsWriter into one bytes.Buffer".
 func (i Info15W) NonTrivial() bool {
-	return i.Repoints > 0 || i.Goroutines > 1 || i.kinds[DFrame] || i.kinds[DYield] || i.kinds[DPlain]
+	return i.Repoints > 0 || i.Goroutines > 1 || i.kinds[DFrame] || i.kinds[DYield] || i.kinds[DPlain] || i.kinds[DBufio]
 }
 
 // Classes for the histogram.
@@ -58,10 +77,16 @@ func (i Info15W) Classes() []string {
 	if i.Repoints > 0 {
 		c = append(c, "writers_Writer_field_repointed")
 	}
-	for _, k := range []string{DBuf, DPlain, DFrame, DYield} {
+	for _, k := range []string{DBuf, DPlain, DFrame, DYield, DBufio} {
 		if i.kinds[k] {
 			c = append(c, "writers_dst_"+k)
 		}
+	}
+	if i.LowSpace > 0 {
+		c = append(c, "writers_bufio_item_met_lt_10_free_bytes")
+	}
+	if i.NoSpace > 0 {
+		c = append(c, "writers_bufio_item_met_0_free_bytes")
 	}
 	if i.P1 {
 		c = append(c, "writers_GOMAXPROCS_1")
@@ -73,18 +98,21 @@ func (i Info15W) Classes() []string {
 }
 
 type dest interface {
-	io.Writer
+	// target is what ObjectsWriter.Writer is pointed at
+	target() io.Writer
 	// payload returns the bytes the destination received (the concatenated frame bodies for a framing writer)
 	payload() ([]byte, *vstat.Violation)
 }
 
 type bufDest struct{ *bytes.Buffer } // Write and WriteString are promoted: io.StringWriter
 
+func (d bufDest) target() io.Writer                   { return d }
 func (d bufDest) payload() ([]byte, *vstat.Violation) { return d.Bytes(), nil }
 
 type plainDest struct{ b []byte }
 
 func (d *plainDest) Write(p []byte) (int, error)         { d.b = append(d.b, p...); return len(p), nil }
+func (d *plainDest) target() io.Writer                   { return d }
 func (d *plainDest) payload() ([]byte, *vstat.Violation) { return d.b, nil }
 
 type yieldDest struct{ b []byte }
@@ -94,7 +122,50 @@ func (d *yieldDest) Write(p []byte) (int, error) {
 	d.b = append(d.b, p...)
 	return len(p), nil
 }
+func (d *yieldDest) target() io.Writer                   { return d }
 func (d *yieldDest) payload() ([]byte, *vstat.Violation) { return d.b, nil }
+
+// bufioDest: the target is the *bufio.Writer itself (what a caller who buffers a file or a socket hands to
+// ObjectsWriter), already holding `fill` bytes written by the harness.
+type bufioDest struct {
+	bw    *bufio.Writer
+	under plainDest
+	fill  []byte
+}
+
+func newBufioDest(kind string) *bufioDest {
+	parts := strings.Split(kind, ":")
+	if len(parts) != 3 {
+		panic("bad bufio destination " + kind)
+	}
+	size, err1 := strconv.Atoi(parts[1])
+	fill, err2 := strconv.Atoi(parts[2])
+	if err1 != nil || err2 != nil || size < 1 || size > 1<<20 || fill < 0 {
+		panic("bad bufio destination " + kind)
+	}
+	fill = min(fill, size)
+	d := &bufioDest{fill: make([]byte, fill)}
+	for j := range d.fill {
+		d.fill[j] = canary(j)
+	}
+	d.bw = bufio.NewWriterSize(&d.under, size)
+	if k, err := d.bw.Write(d.fill); k != fill || err != nil {
+		panic(fmt.Sprintf("harness: bufio.Writer.Write returned (%d, %v)", k, err))
+	}
+	return d
+}
+
+func (d *bufioDest) target() io.Writer { return d.bw }
+
+func (d *bufioDest) payload() ([]byte, *vstat.Violation) {
+	if err := d.bw.Flush(); err != nil {
+		panic(fmt.Sprintf("harness: bufio.Writer.Flush returned %v", err))
+	}
+	if len(d.under.b) < len(d.fill) || !bytes.Equal(d.under.b[:len(d.fill)], d.fill) {
+		return nil, vstat.V("xbin:writer-history-bytes", "bufio.Writer: the %d bytes written before the first item did not arrive intact: %s", len(d.fill), short(d.under.b))
+	}
+	return d.under.b[len(d.fill):], nil
+}
 
 // frameDest uses p only during the call (as io.Writer demands): it is marshalled as one frame by a second ObjectsWriter.
 type frameDest struct {
@@ -118,6 +189,8 @@ func (d *frameDest) Write(p []byte) (int, error) {
 	return len(p), nil
 }
 
+func (d *frameDest) target() io.Writer { return d }
+
 func (d *frameDest) payload() ([]byte, *vstat.Violation) {
 	if d.bad != nil {
 		return nil, d.bad
@@ -136,7 +209,9 @@ func (d *frameDest) payload() ([]byte, *vstat.Violation) {
 }
 
 func newDest(kind string) dest {
-	switch kind {
+	switch dstKind(kind) {
+	case DBufio:
+		return newBufioDest(kind)
 	case DBuf:
 		return bufDest{&bytes.Buffer{}}
 	case DPlain:
@@ -169,6 +244,8 @@ func Run15W(c Case15W) (info Info15W, v *vstat.Violation) {
 		want [][]byte // per destination
 		dsts []dest
 		v    *vstat.Violation
+		low  int
+		full int
 	}
 	var scratch Info15
 	ps := make([]*prepared, len(c.Seqs))
@@ -190,7 +267,7 @@ func Run15W(c Case15W) (info Info15W, v *vstat.Violation) {
 			}
 			p.want[j] = append(p.want[j], enc...)
 			p.cds = append(p.cds, cd)
-			info.kinds[c.Dsts[j]] = true
+			info.kinds[dstKind(c.Dsts[j])] = true
 			if last >= 0 && last != j {
 				info.Repoints++
 			}
@@ -218,7 +295,15 @@ func Run15W(c Case15W) (info Info15W, v *vstat.Violation) {
 			if j < 0 {
 				j += len(c.Dsts)
 			}
-			ow.Writer = p.dsts[j]
+			ow.Writer = p.dsts[j].target()
+			if bw, ok := ow.Writer.(*bufio.Writer); ok {
+				if a := bw.Available(); a == 0 {
+					p.full++
+					p.low++
+				} else if a < 10 {
+					p.low++
+				}
+			}
 			n, err := p.cds[i].write(ow)
 			if (err != nil || n != p.cds[i].size) && p.v == nil {
 				p.v = vstat.V("xbin:writer-count", "goroutine %d item #%d %s to destination %d (%s): ObjectsWriter returned (%d, %v), Marshal wrote %d", g, i, p.cds[i].name, j, c.Dsts[j], n, err, p.cds[i].size)
@@ -240,6 +325,10 @@ func Run15W(c Case15W) (info Info15W, v *vstat.Violation) {
 		}
 		close(start)
 		wg.Wait()
+	}
+	for _, p := range ps {
+		info.LowSpace += p.low
+		info.NoSpace += p.full
 	}
 	for g, p := range ps {
 		if p.v != nil {
